@@ -8,14 +8,15 @@ def hook_commits():
     out = subprocess.run(["git", "-C", "/repo", "log", "--format=%H %s"], capture_output=True, text=True).stdout
     return [l.split()[0] for l in out.splitlines() if "verif hook" in l]
 
-TRUSTED = ("Trusted base: the simulator crate /verif/sim (tape, scheduler, injectors, oracles), rustc/cargo, "
+TRUSTED = ("Every scenario runs twice: without a logger and (a quarter as many runs) with a Trace-level logger installed. "
+           "Trusted base: the simulator crate /verif/sim (tape, scheduler, injectors, oracles), rustc/cargo, "
            "and that the build profile (opt-level 2, overflow-checks, debug-assertions, --cfg flipdot_verif) behaves like the "
            "profile the test suite uses. Sampling: a clean batch is evidence for the runs explored, not a proof.")
 
 CLAIMED = {
  "C02": dict(cat="fault_enumeration", design="5/C02",
    technique="deterministic simulation of a damaged wire: sender Frame::write -> simulated line with exactly one injected fault -> receivers Frame::from_bytes and Frame::read; single-fault placements enumerated per sampled frame",
-   text="For each sampled frame the complete single-fault space of the property (every position x every replacement byte, every deletion, duplication, adjacent swap of unequal characters, every proper prefix) is enumerated on the line the real writer produced; every damaged line is decoded directly and read through the real stream reader under injected EINTR. Oracle: an error, or exactly the original frame. Enumeration is complete per frame; frames are sampled (including maximal-length frames and frames whose data embeds another frame).",
+   text="For each sampled frame the complete single-fault space of the property (every position x every replacement byte, every deletion, duplication, adjacent swap of unequal characters, every proper prefix) is enumerated on the line the real writer produced; every damaged line is decoded directly and read through the real stream reader under injected EINTR. Oracle: an error, or exactly the original frame; an accepted line must itself be consistent (declared length = data bytes, bytes sum to 0); and lines written directly with a wrong declared length (off by 1, 128, 256, 512, zero-extended) or any of the 255 wrong checksums must be rejected. Enumeration is complete per frame; frames are sampled (including maximal-length frames and frames whose data embeds another frame).",
    note=TRUSTED),
  "C08": dict(cat="exploration", design="5/C08",
    technique="deterministic two-party protocol simulation with message-level fault injection and controller crash/restart; post-conditions on the real sign once faults stop",
@@ -27,7 +28,7 @@ CLAIMED = {
    note=TRUSTED),
  "C10": dict(cat="exploration", design="5/C10",
    technique="deterministic simulation of the controller against an adversarial bus (every reply drawn from the full reply alphabet); lock-step refinement against an executable reference model of the documented protocol",
-   text="The real Sign runs each operation against a bus stub whose every answer is drawn from the complete reply alphabet (own/foreign state reports and acks, wrong-operation acks, silence, controller-side messages, unknown frames, bus errors), biased per run so that full transfers, retries, resets and polling loops are reached. At each step the emitted message must equal what the reference model prescribes and the call must end when and how the model ends. Exploration: reply scripts are sampled (millions per batch), not enumerated.",
+   text="The real Sign runs each operation against a bus stub whose every answer is drawn from the complete reply alphabet (own/foreign state reports and acks, wrong-operation acks, silence, controller-side messages, unknown frames, bus errors), biased per run so that full transfers, retries, resets and polling loops are reached. Runs are 1-3 calls on one Sign object; replies include echoes of the request, several kinds of bus error and (rarely) hundreds of in-progress answers in a row; page lists come in mixed sizes and as lazy iterators. At each step the emitted message must equal what the reference model prescribes and the call must end when and how the model ends. Exploration: reply scripts are sampled (millions per batch), not enumerated.",
    note=TRUSTED + " The reference model pins current behaviour at three documented-as-open points (DESIGN.md C10)."),
  "C11": dict(cat="exploration", design="5/C11",
    technique="deterministic simulation against an adversarial bus; history invariants (fail-stop, own address, bounded justified retries, confirmed success) checked on every recorded conversation",
@@ -35,7 +36,7 @@ CLAIMED = {
    note=TRUSTED),
  "C12": dict(cat="exploration", design="5/C12",
    technique="deterministic simulation: seeded traffic + message-level fault injection into real VirtualSign(s), catch_unwind oracle, tape shrinking and replay",
-   text="Seeded simulation of a bus of 1-3 real VirtualSigns under hostile traffic: real Sign controllers behind a fault-injecting bus (loss, reply loss, duplication, reordering, short/long chunks, damaged offsets/counts/config blocks, foreign master, controller crash) mixed with a state-aware raw generator over the whole alphabet, plus flood runs that take the chunk counter past 65535. Oracle: no delivery ever unwinds. Exploration level because histories are sampled (run counts are in the evidence file), not enumerated.",
+   text="Seeded simulation of a bus of 1-3 real VirtualSigns under hostile traffic: real Sign controllers behind a fault-injecting bus (loss, reply loss, duplication, reordering, short/long chunks, damaged offsets/counts/config blocks, foreign master, controller crash) mixed with a state-aware raw generator over the whole alphabet, plus flood runs that take the chunk counter past 65535, transfers of 200-700 tiny pages, and a bus holding no sign at all. Oracle: no delivery ever unwinds. Exploration level because histories are sampled (run counts are in the evidence file), not enumerated.",
    note=TRUSTED),
  "C14": dict(cat="exploration", design="5/C14",
    technique="deterministic simulation of a shared bus: several real controllers on threads under a seeded baton-passing scheduler (message-granular interleaving), non-interference and solo-shadow oracles after every delivered message",
@@ -43,15 +44,15 @@ CLAIMED = {
    note=TRUSTED),
  "C15": dict(cat="fault_enumeration", design="5/C15",
    technique="deterministic stream-fault simulation: Frame::read / Frame::write over a simulated stream with fragmentation, EINTR, short and zero writes, EOF and a hard error at every I/O call index",
-   text="Real Frame::read is run over simulated streams of several lines plus trailing bytes; after every call the bytes handed out by the stream must equal the index just past the first line feed and the result must equal decoding exactly that line. Fragment sizes and EINTR are drawn; then a hard error, and separately a single interrupted call, is placed at every I/O call index in turn, and for short streams every composition into fragment sizes is enumerated. Real Frame::write is run against sinks that accept a drawn number of bytes and interrupt, and then fail, accept zero bytes, interrupt once or accept a single byte at every call index in turn. Fault placements are exhaustive per case; cases are sampled.",
+   text="Real Frame::read is run over simulated streams of several lines (valid, damaged, garbage, LF-only, CR-at-EOF, non-ASCII digits, noise bursts of several KiB) plus trailing bytes; after every call the bytes handed out by the stream must equal the index just past the first line feed and the result must equal decoding exactly that line. Fragment sizes and EINTR are drawn; then a hard error, and separately a single interrupted call, is placed at every I/O call index in turn, and for short streams every composition into fragment sizes is enumerated. Real Frame::write is run against sinks that accept a drawn number of bytes and interrupt, and then fail, accept zero bytes, interrupt once or accept a single byte at every call index in turn. Fault placements are exhaustive per case; cases are sampled.",
    note=TRUSTED),
  "C16": dict(cat="fault_enumeration", design="5/C16",
    technique="deterministic port-fault simulation: real SerialSignBus over a simulated serial device, failure injected at each port operation, oracle over the port's operation log",
-   text="Conversations of 1-5 messages (every message kind x reply-line kind: known, unknown, malformed, bad checksum, wrong length, timeout, EOF) run on ONE real SerialSignBus over the simulated port with fragmented reads, EINTR and short writes; earlier steps may suffer a port failure so that leftovers meet the next exchange; then the last step gets a hard failure at every port operation index in turn. Judged on the port log: exactly the frame encoding + CRLF written once, a read iff hello/query/request, exactly one line consumed (a sentinel line stays), result = decoding of that line, failures never turned into Ok. Placements exhaustive per case; cases sampled.",
+   text="Conversations of 1-5 messages (every message kind x reply-line kind: known, unknown, malformed, bad checksum, wrong length, timeout, EOF) run on ONE real SerialSignBus over the simulated port with fragmented reads, EINTR and short writes; earlier steps may suffer a port failure so that leftovers meet the next exchange; then the last step gets a hard failure at every port operation index in turn. Reply lines also come in lower / mixed case, blank, bare-LF, partial and as KiB-long noise, and the simulator uses its own knowledge of each line it wrote instead of the tree's decoder. Judged on the port log: exactly the frame encoding + CRLF written once, a read iff hello/query/request, exactly one line consumed (a sentinel line stays), result = decoding of that line, failures never turned into Ok. Placements exhaustive per case; cases sampled.",
    note=TRUSTED),
  "C17": dict(cat="exploration", design="5/C17",
    technique="deterministic two-node simulation over a simulated serial line: real controller and real ODK bridge on threads under a seeded scheduler with simulated clock; twin execution directly on the bus as oracle; per-line oracle at the bridge",
-   text="The complete serial path (real Sign, SerialSignBus, Frame codec, simulated full-duplex line with fragmentation / EINTR / short writes / pipelining / line time, real Odk, real VirtualSignBus) runs as two nodes whose every port operation is a scheduling point decided by the tape; port timeouts and the 30/100 ms pacing run on the simulated clock. A twin performs the same operation sequence directly on an identical bus; after each operation success must match success (and flip style) and every sign's state, type and pages must be equal. A second scenario feeds valid, unknown and undecodable lines into the bridge and checks forwarding, write-back and error reporting line by line. Exploration: workloads and schedules are sampled.",
+   text="The complete serial path (real Sign, SerialSignBus, Frame codec, simulated full-duplex line with fragmentation / EINTR / short writes / pipelining / line time, real Odk, real VirtualSignBus) runs as two nodes whose every port operation is a scheduling point decided by the tape; port timeouts and the 30/100 ms pacing run on the simulated clock. A twin performs the same operation sequence directly on an identical bus; after each operation success must match success (and flip style) and every sign's state, type and pages must be equal. A second scenario feeds valid (upper, lower, mixed case), unknown and undecodable lines (bad checksum, bare LF, blank, non-ASCII digits, long noise) into the bridge, in front of the real virtual bus or of a scripted bus whose replies are drawn (nothing, the request itself, any message), and checks forwarding, write-back and error reporting line by line against what the simulator knows it wrote. Exploration: workloads and schedules are sampled.",
    note=TRUSTED + " Error variants are not compared across paths (silence = Ok(None) directly, read timeout over serial)."),
  "C18": dict(cat="exploration", design="5/C18",
    technique="deterministic simulation with a simulated clock behind the sleep seam; intervals measured at the simulated port's write/read boundaries (simulated + real monotonic time)",
@@ -59,7 +60,7 @@ CLAIMED = {
    note=TRUSTED),
  "C20": dict(cat="fault_enumeration", design="5/C20",
    technique="deterministic device-configuration fault simulation: full product of prior port settings x entry points x failure at each configuration call",
-   text="configure_port, SerialSignBus::try_new and Odk::try_new run on a simulated serial device for the full product of prior settings representable by the settings type (12 baud classes x 4 x 3 x 2 x 3) with a failure injected at none / read_settings / set_baud_rate / write_settings / set_timeout. Without failure the device must end at 19200 8N1 without flow control and the right timeout; with a failure (one of six error kinds, drawn) the constructor must return that very error. The product is exhaustive; BaudOther values and timeouts are sampled.",
+   text="configure_port, SerialSignBus::try_new and Odk::try_new run on a simulated serial device for the full product of prior settings representable by the settings type (12 baud classes x 4 x 3 x 2 x 3) with a failure injected at none / read_settings / set_baud_rate / write_settings / set_timeout. Without failure the device must end at 19200 8N1 without flow control and the right timeout; with a failure (one of seven error kinds, drawn) the constructor must return that very error; devices that cannot report their speed, speeds aliasing 19200 in narrower integers, sub-millisecond and huge caller timeouts, and a second setup of the same port are included. The product is exhaustive; BaudOther values and timeouts are sampled.",
    note=TRUSTED),
  "C13": dict(cat="exploration", design="5/C13",
    technique="deterministic simulation: lock-step refinement of real VirtualSign(s) against an executable reference state machine under seeded traffic and fault injection",
